@@ -59,7 +59,7 @@ func ruleRawVsCompressed(c *Ctx, r *Report, prefix string) {
 			why = "the two sizes are compared with " + op.String()
 			continue
 		}
-		if ucB == rawEdge && ccB == cmpEdge && len(gs) == 1 {
+		if ucB == rawEdge && ccB == cmpEdge {
 			ok = true
 		} else {
 			why = "the raw/compressed choice is not controlled by that comparison alone (the raw form must be taken exactly when it is smaller)"
